@@ -204,6 +204,61 @@ def check(prog, res, tier):
     res.add(runs.judge('C12.d', 'PDS keys are packed in ascending tag order', func_where(pfi), "sorted([key for key in dict_values if key.startswith('PDS')])",
                        chk_order, rule='C12.d.keys'))
 
+    # ---- C12.e no sub-element is chosen or dropped by its value
+    def value_dependent(p, v, depth=0):
+        v = p.interp.resolve(v)
+        if depth > 5:
+            return False
+        if isinstance(v, SeqV):
+            return any(isinstance(g, Sl) and str(getattr(g.src, 'name', '')).startswith('pds_value') for g in v.segs)
+        o = getattr(v, 'origin', None)
+        if isinstance(o, tuple):
+            for x in o[1:]:
+                xs = x if isinstance(x, (list, tuple)) else [x]
+                if any(isinstance(y, AVal) and value_dependent(p, y, depth + 1) for y in xs):
+                    return True
+        return False
+
+    def chk_sel(p, mode):
+        fails = []
+        for e in p.events:
+            if e.kind == 'comp-filter' and e.under(pfi.short) and value_dependent(p, e.data.get('value')):
+                fails.append(definite(f'the PDS entries to pack are filtered by `{e.data["text"]}`, which tests the value of the entry: '
+                                      f'entries with an empty value are dropped from the message', e.node, firm=True))
+        return fails
+    res.add(runs.judge('C12.e', 'the PDS entries to pack are selected by their key only, not by their value', func_where(pfi),
+                       "[key for key in dict_values if key.startswith('PDS')]", chk_sel, rule='C12.e.select'))
+
+    # the same decided by constant propagation: the packer folded on the three value classes '' / '0' / ordinary text
+    def entry_k(it):
+        d = DictV(items={'MTI': seqops.lit('1144'), 'DE2': seqops.lit('4444555566667777'), 'PDS0105': seqops.lit('ABC'),
+                         'PDS0023': seqops.lit(''), 'PDS9999': seqops.lit('0')}, desc='message')
+        d.exact_ok = True
+        return it.call_function(pfi, [d], {})
+    runs_k = Runs(prog, entry_k, hooks=common.HOOKS, res=res)
+    ob = Ob('C12.e', "every PDSxxxx entry is packed whatever its value: {'PDS0105': 'ABC', 'PDS0023': '', 'PDS9999': '0'} gives one "
+                     "carrier '0023000' '0105003ABC' '99990010'", func_where(pfi), "keys = sorted(key for key in dict_values if key.startswith('PDS'))",
+            rule='C12.e.fold')
+    want = ['00230000105003ABC99990010']
+    got, why = None, None
+    rets = [p for p in runs_k.inv if p.outcome == 'return']
+    if len(runs_k.inv) != 1 or len(rets) != 1 or rets[0].unknowns or rets[0].tainted:
+        why = 'the packer does not fold to one path on a concrete message' + (f' ({rets[0].unknowns[0][0]})' if rets and rets[0].unknowns else '')
+    else:
+        v = rets[0].interp.resolve(rets[0].value)
+        items = v.items if isinstance(v, (ListV, TupleV)) and v.items is not None else None
+        if items is None or not all(isinstance(rets[0].interp.resolve(x), SeqV) and rets[0].interp.resolve(x).is_lit() for x in items):
+            why = f'the packer returns {v!r}, not a list of constant strings'
+        else:
+            got = [rets[0].interp.resolve(x).lit_value() for x in items]
+    if got is None:
+        ob.verdict, ob.detail = UNDECIDED, why
+    elif got != want:
+        ob.verdict, ob.detail, ob.witness = REFUTED, f'the packer turns these three entries into {got!r}, expected {want!r}: an entry is dropped, duplicated or re-ordered because of its value', {'message': "{'PDS0105': 'ABC', 'PDS0023': '', 'PDS9999': '0'}"}
+    else:
+        ob.verdict, ob.detail = PROVED, f'folded: {got!r}'
+    res.add(ob)
+
     dfi = prog.func('iso8583._dict_to_iso8583')
 
     def pack_summary(it, fi, args, kwargs, node, self_obj):
